@@ -36,9 +36,6 @@ theorem call_hdl_blk (s : St) (c : Call) (h : Nat) (hk : c.key = Key.hdl h) : (c
         · exact applyWrite_hdl_blk hk hs
         · cases hs
       · injection hs with hs; subst hs; rfl
-    · rw [hk] at hs
-      simp only at hs
-      injection hs with hs; subst hs; rfl
     · injection hs with hs; subst hs; rfl
 
 
@@ -199,33 +196,14 @@ theorem relBlocks_spec (imm : Bool) (t h : Nat) : ∀ (order : List Nat) (s : St
 
 
 
-/-- Reachable-and-clean: the C19 invariants hold and no stale-delete decrement happened. -/
-def P (s : St) : Prop := Inv s ∧ s.stale = 0
+/-- The C19 invariants (every state the programs pass through is a state of a `Cas.run`). -/
+def P (s : St) : Prop := Inv s
 
-theorem call_stale (s : St) (c : Call) (hp : ∀ h n, c.pl ≠ Payload.staleDel h n) : (call s c).stale = s.stale := by
+theorem P_call {s : St} (c : Call) (h : P s) : P (call s c) := by
   unfold call
   cases hs : step s (.call c) with
-  | none => rfl
-  | some s' =>
-    simp only [Option.getD_some]
-    simp only [step] at hs
-    split at hs
-    · split at hs
-      · split at hs
-        · exact applyWrite_stale hs
-        · cases hs
-      · injection hs with hs; subst hs; rfl
-    · split at hs
-      · rename_i hpl; exact absurd hpl (hp _ _)
-      · injection hs with hs; subst hs; rfl
-    · injection hs with hs; subst hs; rfl
-
-theorem P_call {s : St} (c : Call) (hp : ∀ h n, c.pl ≠ Payload.staleDel h n) (h : P s) : P (call s c) := by
-  refine ⟨?_, by rw [call_stale s c hp]; exact h.2⟩
-  unfold call
-  cases hs : step s (.call c) with
-  | none => exact h.1
-  | some s' => exact inv_step h.1 hs
+  | none => exact h
+  | some s' => exact inv_step h hs
 
 theorem P_decHandle (t h b num : Nat) (s1 : St) (fs : List Bool) (hP : P s1) : P (decHandle t h b num s1 fs).1 := by
   unfold decHandle
@@ -241,7 +219,7 @@ theorem P_decHandle (t h b num : Nat) (s1 : St) (fs : List Bool) (hP : P s1) : P
       dsimp only
       split
       · exact hP
-      · exact P_call _ (by intro h n hc; cases hc) hP
+      · exact P_call _ hP
 
 theorem P_relBlock (imm : Bool) (t h b : Nat) (s : St) (fs : List Bool) (hP : P s) : P (relBlock imm t h b s fs).1 := by
   unfold relBlock
@@ -262,11 +240,7 @@ theorem P_relBlock (imm : Bool) (t h b : Nat) (s : St) (fs : List Bool) (hP : P 
           split
           · exact hP
           · apply P_decHandle
-            apply P_call _ _ hP
-            intro h' n hc
-            unfold blockWriteCall at hc
-            dsimp only at hc
-            split at hc <;> cases hc
+            exact P_call _ hP
 
 theorem P_relBlocks (imm : Bool) (t h : Nat) : ∀ (order : List Nat) (s : St) (fs : List Bool), P s →
     P (relBlocks imm t h order s fs).1
@@ -305,7 +279,7 @@ theorem P_relByHandleSeq (imm : Bool) (t h : Nat) (order : List Nat) (s : St) (f
 def Covers (s : St) (h : Nat) (order : List Nat) : Prop := ∀ b, hcount s h b ≠ 0 → b ∈ order
 
 theorem P_ge {s : St} (hP : P s) (h : Nat) (hh : h ≠ 0) (b : Nat) : liveAt s b h ≤ hcount s h b := by
-  have := hP.1.2 hP.2 h b hh
+  have := hP.2 h b hh
   omega
 
 /-- One `ReleaseByHandle(h)` that does not fail leaves no address of `h` in any block;
@@ -348,5 +322,266 @@ theorem relByHandle_spec (imm : Bool) (t h : Nat) (hh : h ≠ 0) (order : List N
           rw [liveAt_of_blk (sp.1 b hin)]
           omega
 
+
+
+theorem rmw_nonrel {g1 g2 : List Nat} {op : BOp} {v : Blk} {res : BRes} (hw : WF v)
+    (hop : (match op with | .release _ _ => false | .relh _ => false | _ => true) = true)
+    (hr : rmw g1 op g2 v = some res) (h : Nat) (hh : h ≠ 0) :
+    liveCount h v.slots ≤ liveCount h res.v.slots := by
+  have hc := rmw_count_eq hw h hh hr
+  have hd : res.debits = [] := by
+    unfold rmw at hr
+    split at hr
+    · cases hr
+    · split at hr
+      · cases hr
+      · rename_i r1 h2
+        split at hr
+        · cases hr
+        · injection hr with hr; subst hr
+          cases op <;> simp only [applyBOp] at h2 <;> simp at hop
+          · split at h2 <;> first | (injection h2 with h2; subst h2; rfl) | cases h2
+          · split at h2
+            · injection h2 with h2; subst h2; rfl
+            · cases h2
+          · injection h2 with h2; subst h2; rfl
+          · injection h2 with h2; subst h2; rfl
+  rw [hd] at hc
+  simp only [sumFor, Nat.add_zero] at hc
+  omega
+
+
+theorem live_mono_applyWrite {s s' : St} {c : Call} (h : Nat) (hwf : AllWF s)
+    (hcur : c.verb = Verb.create → s.curRev c.key = none)
+    (ha : addEv h (.call c) = true)
+    (hw : applyWrite s c = some s') : ∀ b h', h' ≠ 0 → liveAt s b h' ≤ liveAt s' b h' := by
+  unfold applyWrite at hw
+  split at hw
+  · -- block create: the block was absent
+    rename_i b0 a0 n0 hk hv _
+    injection hw with hw; subst hw
+    have habs : s.blk b0 = none := by
+      have := hcur hv
+      rw [hk] at this
+      simp only [St.curRev, Option.map_eq_none_iff] at this
+      exact this
+    intro b h' _
+    simp only [liveAt, upd]
+    by_cases e : b = b0
+    · subst e; simp [habs]
+    · simp [e]
+  · rename_i b0 g1 op g2 _ _ hp
+    split at hw
+    · cases hw
+    · rename_i rv v hb
+      split at hw
+      · cases hw
+      · rename_i res hr
+        split at hw
+        · cases hw
+        · injection hw with hw; subst hw
+          intro b h' hh
+          simp only [liveAt, upd]
+          by_cases e : b = b0
+          · subst e
+            simp only [if_true, hb]
+            refine rmw_nonrel (hwf _ _ _ hb) ?_ hr h' hh
+            simp only [addEv, hp] at ha
+            cases op <;> simp_all
+          · simp [e]
+  · rename_i b0 g1 op g2 _ _ hp
+    split at hw
+    · cases hw
+    · rename_i rv v hb
+      split at hw
+      · split at hw
+        · rename_i v1 hg
+          split at hw
+          · rename_i hc
+            simp only [Bool.and_eq_true] at hc
+            injection hw with hw; subst hw
+            intro b h' _
+            simp only [liveAt, upd]
+            by_cases e : b = b0
+            · subst e
+              have hz : liveCount h' v.slots = 0 := by
+                rw [← liveCount_gc_eq h' hg]; exact liveCount_empty hc.1 h'
+              simp [hb, hz]
+            · simp [e]
+          · cases hw
+        · cases hw
+      · simp [addEv, hp] at ha
+  all_goals first
+    | (cases hw; done)
+    | (injection hw with hw; subst hw; intro b h' _; exact Nat.le_refl _)
+    | (split at hw <;> first
+        | (cases hw; done)
+        | (injection hw with hw; subst hw; intro b h' _; exact Nat.le_refl _)
+        | (split at hw <;> first
+            | (cases hw; done)
+            | (injection hw with hw; subst hw; intro b h' _; exact Nat.le_refl _))
+        | (dsimp only at hw; split at hw <;> first
+            | (cases hw; done)
+            | (injection hw with hw; subst hw; intro b h' _; exact Nat.le_refl _)))
+
+theorem live_mono_step {s s' : St} {e : Ev} (h : Nat) (hwf : AllWF s) (ha : addEv h e = true)
+    (hs : step s e = some s') : ∀ b h', h' ≠ 0 → liveAt s b h' ≤ liveAt s' b h' := by
+  cases e with
+  | tick => simp only [step] at hs; injection hs with hs; subst hs; intro _ _ _; exact Nat.le_refl _
+  | «begin» t => simp only [step] at hs; injection hs with hs; subst hs; intro _ _ _; exact Nat.le_refl _
+  | endOp t a =>
+    simp only [step] at hs
+    split at hs
+    · injection hs with hs; subst hs; intro _ _ _; exact Nat.le_refl _
+    · cases hs
+  | call c =>
+    simp only [step] at hs
+    split at hs
+    · rename_i ho
+      split at hs
+      · split at hs
+        · refine live_mono_applyWrite h hwf ?_ ha hs
+          intro hv; rw [hv] at ho; exact casOutcome_create_ok ho
+        · cases hs
+      · injection hs with hs; subst hs; intro _ _ _; exact Nat.le_refl _
+    · injection hs with hs; subst hs; intro _ _ _; exact Nat.le_refl _
+
+
+
+theorem rmw_got_nil {g1 g2 : List Nat} {op : BOp} {v : Blk} {res : BRes}
+    (hop : (match op with | .assign _ _ _ => false | .assignIP _ _ => false | _ => true) = true)
+    (h : rmw g1 op g2 v = some res) : res.got = [] := by
+  unfold rmw at h
+  split at h
+  · cases h
+  · split at h
+    · cases h
+    · rename_i r1 h2
+      split at h
+      · cases h
+      · injection h with h; subst h
+        cases op <;> simp only [applyBOp] at h2 <;> simp at hop
+        · split at h2 <;> first | (injection h2 with h2; subst h2; rfl) | cases h2
+        · split at h2 <;> first | (injection h2 with h2; subst h2; rfl) | cases h2
+        · injection h2 with h2; subst h2; rfl
+        · injection h2 with h2; subst h2; rfl
+
+theorem liveCount_pos {h : Nat} {ss : List Slot} {o : Nat} (hl : ss[o]? = some (Slot.live h)) : 1 ≤ liveCount h ss := by
+  unfold liveCount
+  exact List.countP_pos_iff.2 ⟨_, List.mem_of_getElem? hl, by simp⟩
+
+/-- A newly recorded address of an ADD for handle `h` is live for `h` in the stored block. -/
+theorem got_new_live {s s' : St} {e : Ev} (h : Nat) (hw : AllWF s) (ha : addEv h e = true)
+    (hs : step s e = some s') {t b o : Nat} (hin : (b, o) ∈ s'.got t) (hnot : (b, o) ∉ s.got t) :
+    1 ≤ liveAt s' b h := by
+  cases e with
+  | tick => simp only [step] at hs; injection hs with hs; subst hs; exact absurd hin hnot
+  | «begin» t' =>
+    simp only [step] at hs; injection hs with hs; subst hs
+    simp only [upd] at hin
+    split at hin
+    · cases hin
+    · exact absurd hin hnot
+  | endOp t' a =>
+    simp only [step] at hs
+    split at hs
+    · injection hs with hs; subst hs; exact absurd hin hnot
+    · cases hs
+  | call c =>
+    simp only [step] at hs
+    split at hs
+    · split at hs
+      · split at hs
+        case isFalse => cases hs
+        unfold applyWrite at hs
+        split at hs
+        · injection hs with hs; subst hs; exact absurd hin hnot
+        · rename_i b0 g1 op g2 hk hv hp
+          split at hs
+          · cases hs
+          · rename_i rv v hb
+            split at hs
+            · cases hs
+            · rename_i res hr
+              split at hs
+              · cases hs
+              · injection hs with hs; subst hs
+                simp only [upd] at hin
+                split at hin
+                · rename_i et
+                  rcases List.mem_append.1 hin with h1 | h1
+                  · subst et; exact absurd h1 hnot
+                  · obtain ⟨o', ho', heq⟩ := List.mem_map.1 h1
+                    injection heq with hb0 ho0
+                    subst hb0; subst ho0
+                    have hl := rmw_got_live_h (hw _ _ _ hb) hr ho'
+                    have hop : opHandle op = h := by
+                      simp only [addEv, hp] at ha
+                      cases op <;> simp_all [opHandle]
+                      all_goals (have hn := rmw_got_nil (by simp) hr; rw [hn] at ho'; cases ho')
+                    rw [hop] at hl
+                    simp only [liveAt, upd, if_true]
+                    exact liveCount_pos hl
+                · exact absurd hin hnot
+        all_goals first
+          | (cases hs; done)
+          | (injection hs with hs; subst hs; exact absurd hin hnot)
+          | (split at hs <;> first
+              | (cases hs; done)
+              | (injection hs with hs; subst hs; exact absurd hin hnot)
+              | (split at hs <;> first
+                  | (cases hs; done)
+                  | (injection hs with hs; subst hs; exact absurd hin hnot)
+                  | (split at hs <;> first
+                    | (cases hs; done)
+                    | (injection hs with hs; subst hs; exact absurd hin hnot)
+                    | (split at hs <;> first
+                      | (cases hs; done)
+                      | (injection hs with hs; subst hs; exact absurd hin hnot))))
+              | (dsimp only at hs; split at hs <;> first
+                  | (cases hs; done)
+                  | (injection hs with hs; subst hs; exact absurd hin hnot)))
+      · injection hs with hs; subst hs; exact absurd hin hnot
+    · injection hs with hs; subst hs; exact absurd hin hnot
+
+
+theorem allWF_run' {s s' : St} {evs : List Ev} (hw : AllWF s) (h : run s evs = some s') : AllWF s' :=
+  allWF_run hw h
+
+theorem live_mono_run (h : Nat) : ∀ (evs : List Ev) (s s' : St), AllWF s → (∀ e ∈ evs, addEv h e = true) →
+    run s evs = some s' → ∀ b h', h' ≠ 0 → liveAt s b h' ≤ liveAt s' b h'
+  | [], s, s', _, _, hr => by
+    simp only [run] at hr; injection hr with hr; subst hr; intro _ _ _; exact Nat.le_refl _
+  | e :: es, s, s', hw, ha, hr => by
+    simp only [run] at hr
+    split at hr
+    · rename_i s1 h1
+      intro b h' hh
+      have m1 := live_mono_step h hw (ha e (List.mem_cons_self ..)) h1 b h' hh
+      have m2 := live_mono_run h es s1 s' (allWF_step hw h1) (fun e' he' => ha e' (List.mem_cons_of_mem _ he')) hr b h' hh
+      omega
+    · cases hr
+
+/-- Every address a (so far successful) ADD for handle `h` has recorded is still live for `h`
+at the end of the ADD's events. -/
+theorem add_recorded_stays_live (h : Nat) (hh : h ≠ 0) : ∀ (evs : List Ev) (s s' : St), AllWF s →
+    (∀ e ∈ evs, addEv h e = true) → run s evs = some s' →
+    ∀ t b o, (b, o) ∈ s'.got t → (b, o) ∉ s.got t → 1 ≤ liveAt s' b h
+  | [], s, s', _, _, hr => by
+    simp only [run] at hr; injection hr with hr; subst hr
+    intro t b o hin hnot; exact absurd hin hnot
+  | e :: es, s, s', hw, ha, hr => by
+    simp only [run] at hr
+    split at hr
+    · rename_i s1 h1
+      intro t b o hin hnot
+      have hw1 := allWF_step hw h1
+      have ha' : ∀ e' ∈ es, addEv h e' = true := fun e' he' => ha e' (List.mem_cons_of_mem _ he')
+      by_cases hin1 : (b, o) ∈ s1.got t
+      · have l1 := got_new_live h hw (ha e (List.mem_cons_self ..)) h1 hin1 hnot
+        have m := live_mono_run h es s1 s' hw1 ha' hr b h hh
+        omega
+      · exact add_recorded_stays_live h hh es s1 s' hw1 ha' hr t b o hin hin1
+    · cases hr
 
 end CalicoVerif.C38
